@@ -11,6 +11,8 @@ import (
 	"context"
 	"fmt"
 	"strings"
+	"sync/atomic"
+	"time"
 
 	"storj.io/drpc/drpcmux"
 
@@ -516,9 +518,24 @@ func (muxEnc) Unmarshal(b []byte, m drpc.Message) error {
 	return nil
 }
 
-type muxSvc struct{}
+type muxSvc struct {
+	work      time.Duration // how long Unary takes
+	cancelled int32         // times Unary saw its context end while working
+}
 
-func (*muxSvc) Unary(ctx context.Context, in *muxMsg) (*muxMsg, error) { return &muxMsg{B: in.B}, nil }
+func (s *muxSvc) Unary(ctx context.Context, in *muxMsg) (*muxMsg, error) {
+	if s.work > 0 {
+		t := time.NewTimer(s.work)
+		defer t.Stop()
+		select {
+		case <-ctx.Done():
+			atomic.AddInt32(&s.cancelled, 1)
+			return nil, ctx.Err()
+		case <-t.C:
+		}
+	}
+	return &muxMsg{B: in.B}, nil
+}
 func (*muxSvc) ServerStream(in *muxMsg, st drpc.Stream) error {
 	return st.MsgSend(&muxMsg{B: []byte("answer")}, muxEnc{})
 }
@@ -614,6 +631,98 @@ func muxEarlyReturn(id string, seed uint64) runner.Result {
 	return res
 }
 
+// sizedHistory: the earlier RPCs are plain unary calls that all complete; what varies is the sizes of
+// their messages (a few large ones between runs of small ones), which is state the connection's
+// reader keeps across RPCs (its packet buffer). Every call, and the probe, must come back with
+// exactly what it sent.
+func sizedHistory(id string, seed uint64) runner.Result {
+	r := &payload.SplitMix{S: seed}
+	cfg := prog.GenConfig(r, false)
+	if cfg.Net.Cap == 0 {
+		cfg.Net.Cap = -1
+	}
+	mux := drpcmux.New()
+	if err := mux.Register(&muxSvc{}, muxDesc{}); err != nil {
+		return runner.Inconcl(id, "Register: "+err.Error())
+	}
+	rg := rig.New(rig.Config{Net: cfg.Net, Client: cfg.Client, Server: cfg.Server}, mux)
+	defer rg.Teardown()
+	n := 4 + r.Intn(22)
+	var sizes []int
+	for i := 0; i < n; i++ {
+		switch {
+		case i == 0 || r.Intn(9) == 0:
+			sizes = append(sizes, 600+r.Intn(1<<uint(10+r.Intn(7))))
+		default:
+			sizes = append(sizes, r.Intn(40))
+		}
+	}
+	hist := fmt.Sprintf("%s | sized-history: unary echo calls of sizes %v, the last one is the probe", cfg.Desc, sizes)
+	for i, sz := range sizes {
+		in := payload.Make(uint64(i+1), 0, 0, uint32(i), sz)
+		var out muxMsg
+		op := rig.Go("call", func() (interface{}, error) {
+			return nil, rg.Conn.Invoke(context.Background(), "/m/Unary", muxEnc{}, &muxMsg{B: in}, &out)
+		})
+		what := fmt.Sprintf("call #%d of %d (size %d)", i+1, n, sz)
+		if !op.Wait() {
+			_, snap := census.Quiesce(rig.Watchdog)
+			return runner.Violation(id, "sized-history:rpc-never-completes", what+" never ends although every earlier call completed\nprogram: "+hist+"\n"+census.Dump(census.InDRPC(snap)))
+		}
+		if op.Err != nil {
+			return runner.Violation(id, "sized-history:rpc-fails", what+" failed with "+rig.ErrStr(op.Err)+" although every earlier call completed and nothing was closed or cancelled (connection closed="+fmt.Sprint(rig.IsClosed(rg.Conn.Closed()))+")\nprogram: "+hist)
+		}
+		if string(out.B) != string(in) {
+			return runner.Violation(id, "sized-history:wrong-answer", fmt.Sprintf("%s came back with %d bytes that are not the %d sent\nprogram: %s", what, len(out.B), len(in), hist))
+		}
+	}
+	res := runner.Hold(id, hist, true)
+	res.Events = int64(n)
+	return res
+}
+
+// inactivity: the server has an inactivity timeout, which bounds how long it waits for the NEXT
+// RPC. The RPCs themselves take longer than that. An RPC that is being served is activity: the
+// handler's context must not end while it works, nobody having cancelled or closed anything.
+// (Under load the gap between two calls can exceed the timeout; the server then closes the
+// connection between RPCs, which is what the option is for and is not judged.)
+func inactivity(id string, seed uint64) runner.Result {
+	r := &payload.SplitMix{S: seed}
+	cfg := prog.GenConfig(r, false)
+	if cfg.Net.Cap == 0 {
+		cfg.Net.Cap = -1
+	}
+	if r.Intn(2) == 0 {
+		cfg.Client.SoftCancel, cfg.Server.SoftCancel = true, true
+	}
+	timeout := 150 * time.Millisecond
+	cfg.Server.InactivityTimeout = timeout
+	svc := &muxSvc{work: timeout * 2}
+	mux := drpcmux.New()
+	if err := mux.Register(svc, muxDesc{}); err != nil {
+		return runner.Inconcl(id, "Register: "+err.Error())
+	}
+	rg := rig.New(rig.Config{Net: cfg.Net, Client: cfg.Client, Server: cfg.Server}, mux)
+	defer rg.Teardown()
+	n := 1 + r.Intn(2)
+	hist := fmt.Sprintf("%s soft=%v | inactivity: server InactivityTimeout=%v, %d unary calls whose handler works for %v", cfg.Desc, cfg.Server.SoftCancel, timeout, n, svc.work)
+	done := 0
+	for i := 0; i < n; i++ {
+		var out muxMsg
+		err := rg.Conn.Invoke(context.Background(), "/m/Unary", muxEnc{}, &muxMsg{B: []byte("x")}, &out)
+		if c := atomic.LoadInt32(&svc.cancelled); c > 0 {
+			return runner.Violation(id, "inactivity:context-of-running-handler-ended", fmt.Sprintf("the context of the handler of call #%d ended while the handler was working; nobody cancelled the call or closed anything (the client's Invoke returned %s)\nprogram: %s", i+1, rig.ErrStr(err), hist))
+		}
+		if err != nil {
+			break // the idle gap before this call exceeded the timeout: not judged
+		}
+		done++
+	}
+	res := runner.Hold(id, hist, done > 0)
+	res.Events = int64(done)
+	return res
+}
+
 func gen(tier string, seed uint64) []runner.Scenario {
 	n := 600
 	if tier == "thorough" {
@@ -637,6 +746,14 @@ func gen(tier string, seed uint64) []runner.Scenario {
 			id5 := fmt.Sprintf("mux-early-return/%d", i)
 			out = append(out, runner.Scenario{ID: id5, Run: func() runner.Result { return muxEarlyReturn(id5, payload.Hash(seed, 0xC064, uint64(i))) }})
 		}
+		if i%10 == 0 {
+			id6 := fmt.Sprintf("sized-history/%d", i)
+			out = append(out, runner.Scenario{ID: id6, Run: func() runner.Result { return sizedHistory(id6, payload.Hash(seed, 0xC065, uint64(i))) }})
+		}
+		if i%60 == 0 {
+			id7 := fmt.Sprintf("inactivity/%d", i)
+			out = append(out, runner.Scenario{ID: id7, Run: func() runner.Result { return inactivity(id7, payload.Hash(seed, 0xC066, uint64(i))) }})
+		}
 		if i%6 == 0 {
 			id2 := fmt.Sprintf("queued-cancel/%d", i)
 			out = append(out, runner.Scenario{ID: id2, Run: func() runner.Result { return queuedCancel(id2, payload.Hash(seed, 0xC061, uint64(i))) }})
@@ -649,7 +766,7 @@ func main() {
 	runner.Main(runner.Check{
 		Property: "C06",
 		Level:    "exploration",
-		Rule:     "one case = one program: 1-2 RPCs drawn from clean shapes and five early-ending kinds (client cancel / close at a seeded position, client close after half-close without draining, handler error / early return at a seeded position) x configuration cell (split, writer buffer, cancel mode, transport capacity, chunkers) x optional soft cancel landing while the client goroutine is parked at one of 12 internal points (incl. inside the decode of a received message) (before the semaphore, after stream creation, between metadata/invoke/message writes, ...), optionally one message that the peer's decoder rejects; followed by a tagged unary probe. A first-calls family makes the newly issued RPC itself unusual: its first send is rejected by its own encoder and then it receives from a handler that speaks first; or its handler returns after the first message while the client sends everything before it receives, also on a transport without buffering (capacity 0). A second family cancels an RPC that is queued behind a soft-cancelled stream whose cancel packet is parked in the transport. Non-trivial: every case whose workload ended on both sides. Distinct: by configuration and program text.",
+		Rule:     "one case = one program: 1-2 RPCs drawn from clean shapes and five early-ending kinds (client cancel / close at a seeded position, client close after half-close without draining, handler error / early return at a seeded position) x configuration cell (split, writer buffer, cancel mode, transport capacity, chunkers) x optional soft cancel landing while the client goroutine is parked at one of 12 internal points (incl. inside the decode of a received message) (before the semaphore, after stream creation, between metadata/invoke/message writes, ...), optionally one message that the peer's decoder rejects; followed by a tagged unary probe. A first-calls family makes the newly issued RPC itself unusual: its first send is rejected by its own encoder and then it receives from a handler that speaks first; or its handler returns after the first message while the client sends everything before it receives, also on a transport without buffering (capacity 0). A sized-history family has 4-25 plain unary calls that all complete and differ only in message size (a few of 0.6-64 KiB between runs of 0-39 bytes, state the connection's reader keeps across RPCs); every one must return what it sent. An inactivity family serves RPCs that take longer than the server's InactivityTimeout: the context of a handler that is working must not end. A second family cancels an RPC that is queued behind a soft-cancelled stream whose cancel packet is parked in the transport. Non-trivial: every case whose workload ended on both sides. Distinct: by configuration and program text.",
 		Assumptions: []string{
 			"programs that deadlock by construction (both sides waiting to receive) are rejected by an abstract simulation before they run",
 			"if the workload itself never ends (client call or handler still blocked at quiescence) the case is inconclusive for C06",
